@@ -282,6 +282,10 @@ def cmdline_handler(argv):
                     runhy.run_path(str(filename), run_name="__main__")
                 return 0
             except FileNotFoundError as e:
+                if e.filename != str(filename):
+                    # The program itself raised this; it's not that the
+                    # program is missing.
+                    raise
                 print(
                     "hy: Can't open file '{}': [Errno {}] {}".format(
                         e.filename, e.errno, e.strerror
